@@ -11,6 +11,7 @@
 //	wait <now>                                        -> <dump>
 //	mutes <now> <labels>                              -> <0|1> <inhibitedBy labels|->
 //	fresh <now> <labels>                              -> <0|1> <0|1>    (verdict of a new inhibitor on the same provider; of the long-lived one)
+//	reload <now>                                      -> <dump>         (configuration reload: the inhibitor and a dispatcher-like second subscriber are stopped, new ones subscribe to the same provider)
 //
 // labels = name=hexvalue,… sorted by name; dump = labels@start@end@updated@timeout;… sorted
 package inhibit
@@ -128,6 +129,17 @@ type world struct {
 	ih     *inhibit.Inhibitor
 	rules  []amcommoncfg.InhibitRule
 	known  map[model.Fingerprint]string // fingerprint -> encoded labels of everything put or asked
+	sub    interface{ Close() }          // the second subscriber of the provider (stands for the dispatcher)
+}
+
+type drainSub struct {
+	it   interface{ Close() }
+	done chan struct{}
+}
+
+func (d *drainSub) Close() {
+	close(d.done)
+	d.it.Close()
 }
 
 func (w *world) sleepTo(off int64) {
@@ -203,6 +215,31 @@ func (w *world) exec(line string) string {
 			r = "1"
 		}
 		return r + " " + hx.Join(bys, "|")
+	case "reload":
+		// as app.reloader does: the old inhibitor and dispatcher are stopped, new ones subscribe to the same provider
+		w.sleepTo(hx.Atoi64(t[1]))
+		w.ih.Stop()
+		if w.sub != nil {
+			w.sub.Close()
+		}
+		synctest.Wait()
+		w.ih = inhibit.NewInhibitor(w.alerts, w.rules, promslog.NewNopLogger(), eventrecorder.NopRecorder())
+		go w.ih.Run()
+		w.ih.WaitForLoading()
+		_, it := w.alerts.SlurpAndSubscribe("dispatcher")
+		ds := &drainSub{it: it, done: make(chan struct{})}
+		go func() {
+			for {
+				select {
+				case <-it.Next():
+				case <-ds.done:
+					return
+				}
+			}
+		}()
+		w.sub = ds
+		synctest.Wait()
+		return w.dump()
 	case "fresh":
 		w.sleepTo(hx.Atoi64(t[1]))
 		ls := decLabels(t[2])
@@ -327,6 +364,9 @@ func runCase(t *testing.T, tr *hx.Trace, id int, r *rand.Rand, script []string) 
 		synctest.Wait()
 		defer func() {
 			w.ih.Stop()
+			if w.sub != nil {
+				w.sub.Close()
+			}
 			w.alerts.Close()
 			cancel()
 			synctest.Wait()
@@ -417,7 +457,11 @@ func runCase(t *testing.T, tr *hx.Trace, id int, r *rand.Rand, script []string) 
 				do(fmt.Sprintf("wait %d", now))
 			default:
 				now += ms
-				do(fmt.Sprintf("wait %d", now))
+				if r.IntN(2) == 0 {
+					do(fmt.Sprintf("reload %d", now))
+				} else {
+					do(fmt.Sprintf("wait %d", now))
+				}
 			}
 			// panel
 			np := 2 + r.IntN(3)
@@ -429,6 +473,34 @@ func runCase(t *testing.T, tr *hx.Trace, id int, r *rand.Rand, script []string) 
 				do(fmt.Sprintf("mutes %d %s", now, encLabels(ls)))
 				if r.IntN(6) == 0 {
 					do(fmt.Sprintf("fresh %d %s", now, encLabels(ls)))
+				}
+			}
+		}
+		if r.IntN(5) == 0 {
+			// reloads around a provider GC (stopped subscribers are collected there), then sources fire / resolve:
+			// the inhibitor of the last reload must still see every later alert
+			for range 1 + r.IntN(2) {
+				now += ms
+				do(fmt.Sprintf("reload %d", now))
+				now += pgc + int64(r.IntN(3))*minute + ms
+				do(fmt.Sprintf("wait %d", now))
+				now += ms
+				if r.IntN(2) == 0 {
+					do(fmt.Sprintf("reload %d", now))
+				} else {
+					do(fmt.Sprintf("fresh %d %s", now, encLabels(hx.Pick(r, pool))))
+				}
+			}
+			for range 2 + r.IntN(3) {
+				now += int64(r.IntN(2))*minute + ms
+				ls := hx.Pick(r, pool)
+				end := now + int64(1+r.IntN(20))*minute
+				if r.IntN(4) == 0 {
+					end = now
+				}
+				do(fmt.Sprintf("put %d %s %d %d 0", now, encLabels(ls), now, end))
+				for _, q := range pool {
+					do(fmt.Sprintf("mutes %d %s", now, encLabels(q)))
 				}
 			}
 		}
